@@ -63,6 +63,7 @@ type v20World struct {
 	lastSt State
 	picks  []string // select branches observed through the service logger
 	lastPickSig bool
+	panics atomic.Int64 // Shutdown() calls that panicked in the caller's goroutine
 
 	gen       atomic.Int64 // configuration generation = number of Factories() calls
 	started   map[string]bool
@@ -380,6 +381,7 @@ func (w *v20World) chanClosed() bool {
 func (w *v20World) callShutdown(k int) bool {
 	var wg sync.WaitGroup
 	var panicked atomic.Bool
+	var ready, start atomic.Int32
 	w.logf("call %d", k) // logged (with a state sample) immediately before the calls
 	for i := 0; i < k; i++ {
 		wg.Add(1)
@@ -388,11 +390,21 @@ func (w *v20World) callShutdown(k int) bool {
 			defer func() {
 				if r := recover(); r != nil {
 					panicked.Store(true)
+					w.panics.Add(1)
+					w.logf("callpanic")
 				}
 			}()
+			// spin barrier: all k callers enter Shutdown() at (as nearly as possible) the same instant
+			ready.Add(1)
+			for start.Load() == 0 {
+			}
 			w.col.Shutdown()
 		}()
 	}
+	for int(ready.Load()) < k {
+		time.Sleep(time.Microsecond)
+	}
+	start.Store(1)
 	wg.Wait()
 	return !panicked.Load()
 }
@@ -593,7 +605,7 @@ func (d *v20Det) external(kind int) {
 		}
 		st := w.col.GetState()
 		if !w.callShutdown(k) {
-			d.out.Linef("viol sig=C20/shutdown/panic Shutdown() panicked in state %s", st)
+			d.out.Linef("viol sig=C20/shutdown/concurrent-call-panicked Shutdown() panicked in the caller's goroutine, %d concurrent caller(s), state %s", k, st)
 		}
 		if d.everRun {
 			d.reqAfter = true
@@ -968,9 +980,7 @@ func TestVerifC20Race(t *testing.T) {
 				time.Sleep(a.delay)
 				switch a.kind {
 				case 0:
-					if !w.callShutdown(1) {
-						w.logf("panic call")
-					}
+					w.callShutdown(1 + int(a.delay)%2) // 1 or 2 callers through the barrier; a panic is recorded in w.panics
 				case 3:
 					select {
 					case w.col.signalsChannel <- syscall.SIGHUP:
@@ -1023,6 +1033,9 @@ func TestVerifC20Race(t *testing.T) {
 				}
 			}
 			calm = nev
+		}
+		if w.panics.Load() > 0 {
+			out.Linef("viol sig=C20/shutdown/concurrent-call-panicked %d Shutdown() call(s) panicked in the caller's goroutine", w.panics.Load())
 		}
 		switch verdict {
 		case "quiet":
